@@ -44,7 +44,7 @@ CHECKS['C07'] = (
     'manip.py and the get_basis pipeline + exact-rational span check of the implementation output',
     'Proof (on the model): uncontract_segmented_spec / shape, removeFree_spec (single-momentum shells), span_zeroRow and zeroRow_support for one '
     'zeroing step of optimize_general (Mathlib Submodule.span over Q), literals and call order regenerated from manip.py/api.py. Tie: exact shell-list '
-    'equality model = implementation per element, directly and through 12 flag combinations. span_zeroAll: the whole sweep over all free primitives keeps the span (induction over the (row, column) pairs; rows pairwise different as the code requires). optimizeShell_span: the list-level optimizeShell of the model (the function the driver runs against manip.optimize_general) keeps the span of the column vectors, for every shell it accepts — famOf_zeroedOf (its matrix is the abstract sweep), rowColPairs_single (every collected pair names a one-entry column), span_filter_nonzero (dropping emptied contractions). optimizeShell_nnz_le: never more non-zero coefficients than the general-contracted shell it starts from (entries are only replaced by the zero literal, contractions only dropped). Span equality and the non-zero count of the real output are decided by exact Gaussian elimination in the harness.',
+    'equality model = implementation per element, directly and through 12 flag combinations. span_zeroAll: the whole sweep over all free primitives keeps the span (induction over the (row, column) pairs; rows pairwise different as the code requires). optimizeShell_span: the list-level optimizeShell of the model (the function the driver runs against manip.optimize_general) keeps the span of the column vectors, for every shell it accepts — famOf_zeroedOf (its matrix is the abstract sweep), rowColPairs_single (every collected pair names a one-entry column), span_filter_nonzero (dropping emptied contractions). optimizeShell_nnz_le: never more non-zero coefficients than the general-contracted shell it starts from (entries are only replaced by the zero literal, contractions only dropped). Span equality and the non-zero count of the real output are decided by exact Gaussian elimination in the harness. removeFree_fused: what remove_free_primitives keeps of a fused sp/spd shell is exactly its members whose column contracts two or more primitives, each under its own momentum, one column per momentum (the statement of fix ed2ae683, F21). Results are scribbled over in place between calls.',
     BASE_NOTE + 'Faithful hypothesis; Fraction arithmetic of CPython for the span oracle.', '6/C07')
 CHECKS['C08'] = (
     'Lean 4 theorems (prune_shell output has pairwise distinct exponent values and no dead primitive, prune_basis output has no duplicate shell, '
@@ -56,7 +56,7 @@ CHECKS['C08'] = (
     'the library validator: 2^6 option combinations x augmentation on store samples (exhaustive over the store in the thorough tier) and generated dictionaries. '
     'Whole-rule theorems: pruneShell_output_valid (every validator rule holds for what prune_shell returns, given a semantically well-formed, tagged, positive input; '
     '"no duplicate contraction" is the one hypothesis), pruneShell(s)_identity_on_valid (pruning valid data changes nothing), uncontractGeneral_valid and uncontractSegmented_valid (validateElement = none for '
-    'everything uncontract_general / uncontract_segmented + prune returns on a valid element). Closure: final_prune_establishes_validity (prune_basis turns every prepared shell list - non-zero rectangular columns, right tag, positive exponents - into a valid element), makeGeneral_skip_valid, makeGeneral_full_valid, uncontractSpdf_prune_valid (valid in, valid out, with "no duplicate contraction" as the one hypothesis: it fails exactly when a contracted function occurs twice, the known finding F10b). Partial: optimize_general and the augmentations are not in the closure; compositions of several options are covered by the sweep only.',
+    'everything uncontract_general / uncontract_segmented + prune returns on a valid element). Closure: final_prune_establishes_validity (prune_basis turns every prepared shell list - non-zero rectangular columns, right tag, positive exponents - into a valid element), makeGeneral_skip_valid, makeGeneral_full_valid, uncontractSpdf_prune_valid (valid in, valid out, with "no duplicate contraction" as the one hypothesis: it fails exactly when a contracted function occurs twice, the known finding F10b; since fix 78fc7083 for fused shells of any composition - the earlier hypothesis that every fused shell keeps a member <= max_am marked the point where the real code raised IndexError, F22). Generated dictionaries, incl. ones with a planted zero for one member of a fused shell, are also filed in a data directory each and retrieved by the real get_basis under all 64 flag combinations in an order of their own (F21 was found there). Partial: optimize_general and the augmentations are not in the closure; compositions of several options are covered by the sweep only.',
     BASE_NOTE + 'jsonschema package for the generic schema part.', '6/C08')
 
 CHECKS['C01'] = (
